@@ -126,6 +126,11 @@ def mutations(draw, spec, lay, rendered, max_ops=4, min_ops=0,
             where = draw(st.integers(0, 5))
             d = draw(st.sampled_from(dirs))
             name = draw(st.sampled_from(['stray', 'new file', 'zzz']))
+            if d != '' and draw(st.integers(0, 5)) == 0 and not any(
+                    t.startswith(d + '/Manifest') for t in taken):
+                # a stray that merely carries a Manifest file name (only
+                # where no variant of that Manifest name exists)
+                name = draw(st.sampled_from(['Manifest', 'Manifest.gz']))
             if where == 0:
                 name = '.stray'
             elif where == 1 and ignores:
